@@ -22,6 +22,7 @@ Section Spectra.
 
   (* --- what is assumed of scipy's special functions (sign facts only) *)
   Definition gamma_pos_hyp := forall x, 0 < x -> 0 < ora ORA_GAMMA [x].
+  (* gstools' inc_gamma_low(s, x) = gamma(s) * scipy gammainc(s, x): the lower incomplete gamma function *)
   Definition gammainc_nonneg_hyp := forall s x, 0 < s -> 0 <= x -> 0 <= ora ORA_INCGAMMA_LOW [s; x].
   Definition hyp2f1_nonneg_hyp :=
     forall a b c x, 0 < a -> 0 < b -> 0 < c -> 0 <= x < 1 -> 0 <= ora ORA_HYP2F1 [a; b; c; x].
@@ -99,10 +100,10 @@ Section Spectra.
 
   (* --- Integral (both branches; nu in (0, 50] is the claimed range, the nu > 50 branch is also covered) *)
   Theorem sd_integral_nonneg dim ell nu k :
-    gamma_pos_hyp -> gammainc_nonneg_hyp -> (1 <= dim)%Z -> 0 < ell -> 0 < nu ->
+    gammainc_nonneg_hyp -> (1 <= dim)%Z -> 0 < ell -> 0 < nu ->
     0 <= sd_integral O dim ell nu k.
   Proof.
-    intros HG HP Hd Hl Hn. apply IZR_ge_1 in Hd. unfold sd_integral. rewrite !(sq_R ora). unfold ofZ, two, fifty, lit, nlit. simpl.
+    intros HP Hd Hl Hn. apply IZR_ge_1 in Hd. unfold sd_integral. rewrite !(sq_R ora), (isclose0_R ora). unfold ofZ, two, fifty, lit, nlit. simpl.
     assert (Hf : 0 < Rpowc (5 / 10 * ell / sqrt PI) (IZR dim)).
     { apply Rpowc_pos, div_pos; [lra|apply sqrt_PI_pos]. }
     assert (Hlim : 0 <= Rpowc (5 / 10 * ell / sqrt PI) (IZR dim) * nu / (nu + IZR dim)).
@@ -118,18 +119,18 @@ Section Spectra.
       assert (Hxp : 0 < x).
       { unfold x. assert (k * ell / 2 <> 0) by (intros E; apply Hk; nra).
         pose proof (Rsqr_pos_lt _ H). unfold Rsqr in *. lra. }
-      unfold inc_gamma_low, gamma, gammainc.
+      unfold inc_gamma_low.
       apply Rmult_le_pos.
       + apply div_nonneg; [|apply Rpowc_pos, Hxp]. apply Rmult_le_pos; [lra|left; exact Hf].
-      + apply Rmult_le_pos; [left; apply HG; lra|apply HP; lra].
+      + apply HP; lra.
   Qed.
 
   (* --- HyperSpherical *)
   Theorem sd_hyperspherical_nonneg dim ell k :
     gamma_pos_hyp -> (1 <= dim)%Z -> 0 < ell -> 0 <= k -> 0 <= sd_hyperspherical O dim ell k.
   Proof.
-    intros HG Hd Hl Hk. apply IZR_ge_1 in Hd. unfold sd_hyperspherical, half_dim, gamma, ofZ, two, lit, nlit.
-    simpl. fold O.
+    intros HG Hd Hl Hk. apply IZR_ge_1 in Hd. unfold sd_hyperspherical. rewrite (isclose0_R ora).
+    unfold half_dim, gamma, ofZ, two, lit, nlit. simpl. fold O.
     assert (HGd : 0 < ora ORA_GAMMA [IZR dim / 2 + 1]) by (apply HG; lra).
     assert (Hs : 0 < Rpowc (sqrt PI) (IZR dim)) by apply Rpowc_pos, sqrt_PI_pos.
     destruct (Rleb (Rabs k) _) eqn:Ek.
@@ -193,12 +194,12 @@ Section Spectra.
     - lia.
     - exact Ha.
     - exact Hz.
-    - simpl. unfold ofZ. simpl. rewrite plus_IZR. simpl.
+    - simpl. rewrite !(ilit_R ora), plus_IZR. simpl.
       assert (0 <= z / (IZR n + 1 + 1)) by (apply div_nonneg; lra).
       replace (term * (- z / (IZR n + 1)) * (- z / (IZR n + 1 + 1)))
         with (term * (z / (IZR n + 1)) * (z / (IZR n + 1 + 1))) by (field; lra).
       apply Rmult_le_pos; [apply Rmult_le_pos; lra|lra].
-    - simpl. unfold ofZ. simpl. rewrite plus_IZR. simpl.
+    - simpl. rewrite !(ilit_R ora), plus_IZR. simpl.
       (* term/(a+n) - term (z/(n+1)) / (a+n+1) >= 0 *)
       assert (H1 : term * (- z / (IZR n + 1)) / (a + (IZR n + 1)) = - (term * (z / (IZR n + 1)) / (a + (IZR n + 1))))
         by (field; lra).
@@ -215,11 +216,11 @@ Section Spectra.
 
   Local Opaque gau_series.
   Theorem sd_tplgau0_nonneg dim ell hurst k :
-    gamma_pos_hyp -> gammainc_nonneg_hyp -> (1 <= dim)%Z -> 0 < ell -> 0 < hurst ->
+    gammainc_nonneg_hyp -> (1 <= dim)%Z -> 0 < ell -> 0 < hurst ->
     0 <= sd_tplgau0 O dim ell hurst k.
   Proof.
-    intros HG HP Hd Hl Hh. apply IZR_ge_1 in Hd.
-    unfold sd_tplgau0. rewrite !(sq_R ora). unfold inc_gamma_low, half_dim, gamma, gammainc, ofZ, two, lit, nlit. simpl.
+    intros HP Hd Hl Hh. apply IZR_ge_1 in Hd.
+    unfold sd_tplgau0. rewrite !(sq_R ora). unfold inc_gamma_low, half_dim, ofZ, two, lit, nlit. simpl.
     set (z := k * ell / 2 * (k * ell / 2)).
     assert (Hz : 0 <= z) by (unfold z; pose proof (Rle_0_sqr (k * ell / 2)); unfold Rsqr in *; lra).
     set (a := hurst + IZR dim / 2). assert (Ha : 0 < a) by (unfold a; lra).
@@ -227,7 +228,7 @@ Section Spectra.
     { apply div_nonneg; [|apply Rpowc_pos, PI_RGT_0]. apply Rmult_le_pos; [left; apply Rpowc_pos; lra|lra]. }
     unfold Rltb. destruct (Rlt_dec _ z) as [Hz1|Hz1].
     - apply div_nonneg; [|apply Rpowc_pos; lra].
-      apply Rmult_le_pos; [exact Hfac|]. apply Rmult_le_pos; [left; apply HG, Ha|apply HP; lra].
+      apply Rmult_le_pos; [exact Hfac|]. apply HP; lra.
     - apply Rmult_le_pos; [exact Hfac|].
       apply (gau_series_nonneg 6 0%Z a z 1 0); try lra; lia.
   Qed.
@@ -242,10 +243,10 @@ Section Spectra.
     destruct (Req_EM_T 0 0) as [_|Hc]; [|contradiction]. apply sd_tplexp0_nonneg; assumption.
   Qed.
   Theorem sd_tplgau_nonneg dim ell hurst len_low k :
-    gamma_pos_hyp -> gammainc_nonneg_hyp -> (1 <= dim)%Z -> 0 < ell -> 0 < hurst ->
+    gammainc_nonneg_hyp -> (1 <= dim)%Z -> 0 < ell -> 0 < hurst ->
     len_low = 0 -> 0 <= sd_tplgau O dim ell hurst len_low k.
   Proof.
-    intros HG HP Hd Hl Hh ->. unfold sd_tplgau, sd_tpl. simpl. unfold Reqb.
+    intros HP Hd Hl Hh ->. unfold sd_tplgau, sd_tpl. simpl. unfold Reqb.
     destruct (Req_EM_T 0 0) as [_|Hc]; [|contradiction]. apply sd_tplgau0_nonneg; assumption.
   Qed.
 
